@@ -3,6 +3,7 @@ CONSTANTS
   GsubSteps = 2
   GposSteps = 1
   GenLen = 4
+  TxtLen = 5
 SPECIFICATION Spec
-INVARIANTS RunOK CallOK Sanity Emit
+INVARIANTS RunOK CallOK Sanity TextSanity Emit
 CHECK_DEADLOCK FALSE
